@@ -100,7 +100,10 @@ type FolderNestedCount struct {
 
 var (
 	folderStructureLock sync.RWMutex
-	rootFolderID        = "root-folder"
+	// folderStructureOpLock serializes the read-modify-write cycles on the folder structure file:
+	// without it two concurrent requests read the same structure and the later write drops the earlier change
+	folderStructureOpLock sync.Mutex
+	rootFolderID          = "root-folder"
 )
 
 func getFolderStructureFilePath(myid int64) string {
@@ -256,6 +259,9 @@ func writeFolderStructure(structure *FolderStructure, myid int64) error {
 }
 
 func createFolder(req *CreateFolderRequest, myid int64) (string, error) {
+	folderStructureOpLock.Lock()
+	defer folderStructureOpLock.Unlock()
+
 	if req.Name == "" {
 		return "", errors.New("folder name cannot be empty")
 	}
@@ -390,6 +396,9 @@ func generateBreadcrumbs(folderID string, structure *FolderStructure) []Breadcru
 }
 
 func updateFolder(folderID string, req *UpdateFolderRequest, myid int64) error {
+	folderStructureOpLock.Lock()
+	defer folderStructureOpLock.Unlock()
+
 	if folderID == rootFolderID {
 		return fmt.Errorf("updateFolder: cannot update root folder")
 	}
@@ -507,6 +516,9 @@ func wouldCreateCircularReference(folderID, newParentID string, structure *Folde
 }
 
 func deleteFolder(folderID string, myid int64) error {
+	folderStructureOpLock.Lock()
+	defer folderStructureOpLock.Unlock()
+
 	if folderID == rootFolderID {
 		return fmt.Errorf("deleteFolder: cannot delete root folder")
 	}
